@@ -235,6 +235,7 @@ func (tr *Transaction) Commit() error {
 		if cerr != nil {
 			// Return error, lets user decide either to retry or discard
 			// transaction.
+			tr.db.compCommitLk.Unlock()
 			return cerr
 		}
 
